@@ -23,7 +23,18 @@ on the shape of the generated term and does not name the generated definitions (
 A behaviour-preserving rewrite of the Go code (switch ↔ if-chain, merged branches, swapped or commuted operands, a sign
 test written as `int64(hi) < 0` or `hi>>63`, a new helper function …) is still proved; a change of behaviour makes the
 corresponding theorem fail, which `./check C01` reports as a proof that no longer checks (and the differential run
-looks for the concrete input).  Limits: bit-level subterms and the calls of `math/bits` must keep their form. -/
+looks for the concrete input).
+
+Portfolio.  Where one script is not enough a theorem tries several, cheapest first: `gen_tie` (structural);
+`tie_spec` (`Lemmas/GenTieCompose.lean`: the calls of already tied functions — simp set `gen_eq`, the theorems below in
+the order they are proved — are rewritten into the model BEFORE anything is unfolded, borrow / carry chains are folded
+into the model's 128-bit operations, every model function is replaced by its specification from `Props/C01.lean`, and
+the statement about `toInt` / `toNat` is decided by `omega`); the shape-independent specification fallbacks of
+`Lemmas/GenTieSpec.lean` (`…_of_spec` + `gen_spec`: the contracts `add64` / `sub64` unfolded into arithmetic).  So
+`Neg` as `0 − i` through `bits.Sub64`, `Abs` through `Neg`, the ordering predicates through one `LessThan` and
+`Int128From64`, `Mul64` through `bits.Mul64`, `Add64` through `Add`, `Dec` without `bits.Sub64` are all proved with
+this one file, as is the unchanged tree.  Limits: the bit-level functions (`And … Xor64`, shifts, `Bit`, `SetBit`) and
+`Mul` are compared structurally only. -/
 namespace C01Gen
 open U128 (W)
 
@@ -199,14 +210,22 @@ open U128 (W)
 @[gen_eq] theorem Int128_Sub64_eq : Gen.Int128_Sub64 = I128.subW := by
   funext i n; gen_tie [I128.subW, I128.neg64] [I128.maxU64]
 @[gen_eq] theorem Int128_Inc_eq : Gen.Int128_Inc = I128.inc := by
-  funext i; gen_tie [I128.inc, U128.inc, I128.ofU, I128.toU]
+  funext i
+  first
+  | gen_tie [I128.inc, U128.inc, I128.ofU, I128.toU]
+  | (simp only [Gen.Int128_Inc, gen_eq]; rfl)
 @[gen_eq] theorem Int128_Dec_eq : Gen.Int128_Dec = I128.dec := by
-  funext i; gen_tie [I128.dec, U128.dec, I128.ofU, I128.toU]
+  funext i
+  first
+  | gen_tie [I128.dec, U128.dec, I128.ofU, I128.toU]
+  | (simp only [Gen.Int128_Dec, gen_eq]; rfl)
 @[gen_eq] theorem Int128_Mul_eq : Gen.Int128_Mul = I128.mul := by
   funext i n; gen_tie [I128.mul]
 @[gen_eq] theorem Int128_Mul64_eq : Gen.Int128_Mul64 = I128.mulW := by
   funext i n
-  gen_tie [I128.mulW, I128.mul, I128.from64, I128.ext64, I128.neg64] [I128.maxU64]
+  first
+  | gen_tie [I128.mulW, I128.mul, I128.from64, I128.ext64, I128.neg64] [I128.maxU64]
+  | (simp only [Gen.Int128_Mul64, gen_eq]; rfl)
 @[gen_eq] theorem Int128_Sign_eq (i : I128) : (Gen.Int128_Sign i).toInt = I128.sign i := by
   gen_tie [I128.sign] [U128.signBit]
 @[gen_eq] theorem Int128_Neg_eq : Gen.Int128_Neg = I128.neg := by
